@@ -43,6 +43,23 @@ fn check_line(st: &mut Stats, line: &Value) -> Vec<String> {
             if HpoTermId::from([bytes[0], bytes[1], bytes[2], bytes[3]]).as_u32() != id || HpoTermId::from_u32(id).as_u32() != id {
                 d.push(format!("id {id}: from([u8;4]) / from_u32 do not give the id back"));
             }
+            // the other conversions of the same id: integer widths, owned text, comparison with text
+            let widths = HpoTermId::from(id as u64) == t && HpoTermId::from(id as usize) == t && t.to_usize() == id as usize && (id > 0xFFFF || HpoTermId::from(id as u16) == t);
+            if !widths {
+                d.push(format!("id {id}: From<u64> / From<usize> / From<u16> / to_usize disagree with From<u32>"));
+            }
+            match catch(|| (HpoTermId::from(text.clone()).as_u32(), t == *text.as_str(), t == text.as_str())) {
+                Ok((x, e1, e2)) => {
+                    if x != id || !e1 || !e2 {
+                        d.push(format!("id {id}: From<String>({:?}) = {x}, == str: {e1}, == &str: {e2}", text));
+                    }
+                }
+                Err(p) => d.push(format!("id {id}: From<String> / == on its own rendering {:?} panicked: {p}", text)),
+            }
+            let other = HpoTermId::from(id ^ 1).to_string();
+            if let Ok(true) = catch(|| t == other.as_str()) {
+                d.push(format!("id {id} compares equal to the text {:?}", other));
+            }
         }
         return d;
     }
@@ -149,7 +166,8 @@ fn big_cases(st: &mut Stats) -> Vec<String> {
     loop {
         let t = HpoTermId::from(id);
         let s = t.to_string();
-        let ok = s.len() >= 10 && s.starts_with("HP:") && s[3..].len() == 7.max(s.len() - 3) && HpoTermId::try_from(s.as_str()).map(|x| x.as_u32()).ok() == Some(id) && HpoTermId::from(t.to_be_bytes()).as_u32() == id;
+        let ok = s.len() >= 10 && s.starts_with("HP:") && s[3..].len() == 7.max(s.len() - 3) && HpoTermId::try_from(s.as_str()).map(|x| x.as_u32()).ok() == Some(id) && HpoTermId::from(t.to_be_bytes()).as_u32() == id
+            && t == s.as_str() && HpoTermId::from(id as u64) == t && t.to_usize() == id as usize;
         let padded = format!("HP:{:07}", id);
         if !ok || s != padded {
             d.push(format!("id {id}: renders as {:?} (expected {:?}) or does not parse back", s, padded));
